@@ -224,7 +224,9 @@ func RunRouter(t *testing.T, p *plan.Plan, keepLog int) *Result {
 	if p.Knobs.LogDebug {
 		mlog.SetLvl(zerolog.DebugLevel)
 	} else {
-		mlog.SetLvl(zerolog.Disabled)
+		// error-level lines reach the campaign driver through stderr (it
+		// looks for the cache's "invalid cache data" report)
+		mlog.SetLvl(zerolog.ErrorLevel)
 	}
 	var h *History
 	func() {
